@@ -456,14 +456,25 @@ func (c *ctx) tlsConfig(explicit bool) *tls.Config {
 // exec runs one scenario on the real code.  base is the StartTLS feature value
 // to use (nil: a fresh one).
 func (c *ctx) exec(sc scenario, base *xmpp.StreamFeature) (res result) {
+	// an XML declaration is only legal at the very start of a document: a header that
+	// follows white space is spelled without one
+	prevW := false
+	spell := func(u unit) []byte {
+		if u.kind == 'H' && u.ok && prevW {
+			u.variant = 1
+		}
+		prevW = u.kind == 'W'
+		return u.bytes(&sc)
+	}
 	var clear [][]byte
 	for _, seg := range sc.clear {
 		var b []byte
 		for _, u := range seg {
-			b = append(b, u.bytes(&sc)...)
+			b = append(b, spell(u)...)
 		}
 		clear = append(clear, b)
 	}
+	prevW = false
 	w := newWire(clear)
 	peer := &tlsPeer{w: w, cfg: c.pki.server}
 	var items []pitem
@@ -471,7 +482,7 @@ func (c *ctx) exec(sc scenario, base *xmpp.StreamFeature) (res result) {
 		if p.junk {
 			items = append(items, pitem{junk: true, b: []byte("<stream:features/> this is not a TLS record")})
 		} else {
-			items = append(items, pitem{b: p.u.bytes(&sc)})
+			items = append(items, pitem{b: spell(p.u)})
 		}
 	}
 	peer.run(items)
